@@ -277,4 +277,266 @@ theorem cancelWaitingAll_inv_succ {fuel : Nat} (hswf : ISwf (stoppedWaitFor fuel
   exact (cwaZero_inv hswf hsn h).bind (cwaRest_pres (presAll fuel).swf (presAll fuel).sn _ _)
     (fun p => cwaRest_inv hswf hsn p)
 
+/-! ### `~ScriptThread` -/
+
+theorem State.setTh_setTh (s : State) (t : Nat) (g f : Th → Th) :
+    (s.setTh t g).setTh t f = s.setTh t (fun th => f (g th)) := by
+  unfold State.setTh
+  simp only [List.map_map]
+  congr 1
+  apply List.map_congr_left
+  intro e _
+  simp only [Function.comp]
+  by_cases he : e.1 == t
+  · simp [he]
+  · simp [he]
+
+/-- the record of `t`, if any, has lost its VM (and its VM is destroyed) -/
+def NoVM (s : State) (t : Nat) : Prop := ∀ th', thFind s.threads t = some th' → th'.hasVM = false
+def Gone (s : State) (t : Nat) : Prop :=
+  ∀ th', thFind s.threads t = some th' → th'.hasVM = false ∧ th'.vm = .destroyed
+
+theorem NoVM.of_q {D : List Nat} {a b : State} {t : Nat} (q : Q D a b) (h : NoVM a t) : NoVM b t := by
+  intro th' hf
+  obtain ⟨th, h1, qt⟩ := q.th t th' hf
+  cases hv : th'.hasVM with
+  | false => rfl
+  | true => have := qt.hasVM hv; rw [h th h1] at this; cases this
+
+theorem Gone.of_q {D : List Nat} {a b : State} {t : Nat} (q : Q D a b) (h : Gone a t) : Gone b t := by
+  intro th' hf
+  obtain ⟨th, h1, qt⟩ := q.th t th' hf
+  obtain ⟨g1, g2⟩ := h th h1
+  constructor
+  · cases hv : th'.hasVM with
+    | false => rfl
+    | true => have := qt.hasVM hv; rw [g1] at this; cases this
+  · rcases qt.vm with e | e
+    · rw [e]; exact g2
+    · exact e
+
+theorem dtStop_inv {cw : State → Nat → State} (hq : Q1 cw) (hcw : ICwa cw) {C W : List Nat} {s : State}
+    {t : Nat} {th : Th} (h : Inv C (t :: W) none s) (hth : thFind s.threads t = some th) :
+    Ok (stopStep cw (s.setTh t fun th => { th with hasVM := false }) t th)
+      (Inv C W none (stopStep cw (s.setTh t fun th => { th with hasVM := false }) t th) ∧
+        NoVM (stopStep cw (s.setTh t fun th => { th with hasVM := false }) t th) t) := by
+  have hrec := h.th t th hth
+  have hC : ∀ x ∈ C, x ≠ t → x ∈ C := fun x m _ => m
+  have hW : ∀ x ∈ t :: W, x ≠ t → x ∈ W := fun x m hx => by
+    rcases List.mem_cons.1 m with m | m
+    · exact absurd m hx
+    · exact m
+  unfold stopStep
+  by_cases h1 : th.ts = .timing
+  · simp only [h1, beq_self_eq_true, if_true]
+    rw [State.setTh_setTh]
+    apply Ok.pure
+    constructor
+    · apply h.setTh t (fun th => { th with hasVM := false, ts := .running }) th (s.timer.remove t) hth
+        (fun _ => rfl) ⟨fun _ => rfl, fun hd => ⟨rfl, (hrec.f2 hd).2⟩, fun _ => rfl, fun _ => rfl⟩ (fun _ => rfl)
+        (h.tim.erase_via_remove t th hth h1 _ (fun _ => by simp)) hC hW (Or.inl rfl)
+      · intro ho
+        rcases h.lnk.linkC t ho with m | ⟨th0, h0, hw⟩
+        · exact Or.inl m
+        · rw [hth] at h0; cases h0; rw [h1] at hw; cases hw
+      · intro hw; cases hw
+      · intro hw; cases hw
+    · intro th' hf
+      have hf' : thFind (s.threads.map (thUpd t fun th => { th with hasVM := false, ts := .running })) t = some th' := hf
+      rw [thFind_map_upd] at hf'
+      simp [hth] at hf'
+      rw [← hf']
+  · by_cases h2 : th.ts = .waiting
+    · have hne : (th.ts == TS.timing) = false := by rw [h2]; rfl
+      simp only [hne, h2, beq_self_eq_true, if_true, Bool.false_eq_true, if_false]
+      rw [State.setTh_setTh]
+      have h1' : Inv (t :: C) W none (s.setTh t fun th => { th with hasVM := false, ts := .running }) :=
+        h.setTh (C' := t :: C) (W' := W) (top' := none) t (fun th => { th with hasVM := false, ts := .running }) th s.timer hth
+          (fun _ => rfl) ⟨fun _ => rfl, fun hd => ⟨rfl, (hrec.f2 hd).2⟩, fun _ => rfl, fun _ => rfl⟩ (fun _ => rfl)
+          (h.tim.setTh_off t (fun th => { th with hasVM := false, ts := .running })
+            (fun th0 h0 => by rw [hth] at h0; cases h0; rw [h2]; simp) (fun _ => by simp))
+          (fun x m _ => List.mem_cons_of_mem _ m) hW (Or.inl rfl)
+          (fun _ => Or.inl List.mem_cons_self) (fun hw => by cases hw) (fun hw => by cases hw)
+      refine (hcw C W _ t h1').map ?_
+      rintro ⟨hi, _⟩
+      refine ⟨hi, ?_⟩
+      apply NoVM.of_q (hq [] _ t h1'.n)
+      intro th' hf
+      rw [State.setTh_threads, thFind_map_upd] at hf
+      simp [hth] at hf
+      rw [← hf]
+    · have hne1 : (th.ts == TS.timing) = false := by
+        rcases ts_cases th.ts with e | e | e <;> simp_all
+      have hne2 : (th.ts == TS.waiting) = false := by
+        rcases ts_cases th.ts with e | e | e <;> simp_all
+      have hrun : th.ts = .running := by
+        rcases ts_cases th.ts with e | e | e
+        · exact e
+        · exact absurd e h1
+        · exact absurd e h2
+      simp only [hne1, hne2, Bool.false_eq_true, if_false]
+      apply Ok.pure
+      constructor
+      · apply h.setTh t (fun th => { th with hasVM := false }) th s.timer hth
+          (fun _ => rfl) ⟨fun _ => hrun, fun hd => ⟨rfl, (hrec.f2 hd).2⟩, hrec.f3, fun _ => rfl⟩ (fun _ => rfl)
+          (h.tim.setTh_same t (fun th => { th with hasVM := false }) (fun _ => rfl)) hC hW (Or.inl rfl)
+        · intro ho
+          rcases h.lnk.linkC t ho with m | ⟨th0, h0, hw⟩
+          · exact Or.inl m
+          · rw [hth] at h0; cases h0; rw [hrun] at hw; cases hw
+        · intro hw; rw [hrun] at hw; cases hw
+        · intro hw; rw [hrun] at hw; cases hw
+      · intro th' hf
+        rw [State.setTh_threads, thFind_map_upd] at hf
+        simp [hth] at hf
+        rw [← hf]
+
+/-- a record update that keeps thread state, `hasVM`, `dead`, and either keeps the VM state or destroys it -/
+theorem Inv.setTh_plain {C W : List Nat} {top : Option Nat} {s : State} (h : Inv C W top s)
+    (t : Nat) (f : Th → Th) (hpar : ∀ x, (f x).parent = x.parent) (hts : ∀ x, (f x).ts = x.ts)
+    (hdead : ∀ x, (f x).dead = x.dead) (hok : ∀ th, thFind s.threads t = some th → RecOK (f th))
+    (hvm : ∀ x, (f x).vm = x.vm ∨ (f x).vm = .destroyed) : Inv C W top (s.setTh t f) := by
+  cases hth : thFind s.threads t with
+  | none => exact h.setTh_none t f hth hpar
+  | some th =>
+    have hrec := hok th hth
+    have := h.setTh (C' := C) (W' := W) (top' := top) t f th s.timer hth hpar hrec hdead
+      (h.tim.setTh_same t f hts) (fun x m _ => m) (fun x m _ => m) (Or.inr rfl)
+      (fun ho => by
+        rcases h.lnk.linkC t ho with m | ⟨th0, h0, hw⟩
+        · exact Or.inl m
+        · rw [hth] at h0; cases h0; right; rw [hts]; exact hw)
+      (fun hw => by rw [hts] at hw; exact h.lnk.linkW t th hth hw)
+      (fun hw hv => by
+        rw [hts] at hw
+        rcases hvm th with e | e
+        · rw [e] at hv; exact h.lnk.f4 t th hth hw hv
+        · have := hrec.f1 (hrec.f5 e)
+          rw [hts, hw] at this; cases this)
+    exact this
+
+theorem removeFromInst_inv {C W : List Nat} {top : Option Nat} {s : State} (h : Inv C W top s) (t i : Nat) :
+    Inv C W top (removeFromInst s t i) := by
+  rw [removeFromInst_frame]; exact h.congr rfl rfl rfl rfl rfl rfl rfl rfl rfl
+
+theorem notifyDelete_inv {C W : List Nat} {s : State} {t : Nat} (h : Inv C W none s) (hv : NoVM s t) :
+    Inv C W none (notifyDelete s t) ∧ Gone (notifyDelete s t) t := by
+  unfold notifyDelete
+  cases hf : s.th? t with
+  | none =>
+    rw [State.th?_eq] at hf
+    exact ⟨h, fun th' h' => by rw [hf] at h'; cases h'⟩
+  | some th =>
+    rw [State.th?_eq] at hf
+    have hrec := h.th t th hf
+    have hvm := hv th hf
+    simp only
+    have h1 : Inv C W none (s.setTh t fun th => { th with vm := .destroyed }) :=
+      h.setTh_plain t _ (fun _ => rfl) (fun _ => rfl) (fun _ => rfl)
+        (fun th0 h0 => by
+          rw [hf] at h0; cases h0
+          exact ⟨hrec.f1, fun hd => ⟨hvm, rfl⟩, fun hr => (by cases hr), fun _ => hvm⟩)
+        (fun _ => Or.inr rfl)
+    have g1 : Gone (s.setTh t fun th => { th with vm := .destroyed }) t := by
+      intro th' h'
+      rw [State.setTh_threads, thFind_map_upd] at h'
+      simp [hf] at h'
+      rw [← h']; exact ⟨hvm, rfl⟩
+    have h2 : Inv C W none (if th.attached = true then removeFromInst (s.setTh t fun th => { th with vm := .destroyed }) t th.inst
+        else s.setTh t fun th => { th with vm := .destroyed }) ∧
+        Gone (if th.attached = true then removeFromInst (s.setTh t fun th => { th with vm := .destroyed }) t th.inst
+        else s.setTh t fun th => { th with vm := .destroyed }) t := by
+      split
+      · refine ⟨removeFromInst_inv h1 _ _, ?_⟩
+        rw [removeFromInst_frame]; exact g1
+      · exact ⟨h1, g1⟩
+    split
+    · refine ⟨h2.1.setTh_plain t _ (fun _ => rfl) (fun _ => rfl) (fun _ => rfl) ?_ (fun _ => Or.inl rfl), ?_⟩
+      · intro th0 h0
+        have r := h2.1.th t th0 h0
+        exact ⟨r.f1, r.f2, r.f3, r.f5⟩
+      · intro th' h'
+        rw [State.setTh_threads, thFind_map_upd] at h'
+        simp only [if_true] at h'
+        cases h0 : thFind (if th.attached = true then removeFromInst (s.setTh t fun th => { th with vm := .destroyed }) t th.inst
+          else s.setTh t fun th => { th with vm := .destroyed }).threads t with
+        | none => rw [h0] at h'; simp at h'
+        | some th0 =>
+          rw [h0] at h'; simp at h'
+          rw [← h']; exact h2.2 th0 h0
+    · exact h2
+
+theorem finishDelete_inv {C W : List Nat} {s : State} {t : Nat} (h : Inv C W none s) (hg : Gone s t)
+    (h1 : Tbl.hasOwner s.notify t = false) (h2 : Tbl.hasOwner s.waitFor t = false) :
+    Inv C W none (finishDelete s t) := by
+  unfold finishDelete
+  cases hf : s.th? t with
+  | none => exact h
+  | some th =>
+    rw [State.th?_eq] at hf
+    obtain ⟨g1, g2⟩ := hg th hf
+    simp only
+    split
+    · exact h.die t th hf g1 g2 h1 h2
+    · exact h.remove t th hf g1 (notMentioned h.tab.mir h.n.wfN h.n.wfW h1 h2)
+
+theorem cancelEvents_inv {C W : List Nat} {top : Option Nat} {s : State} (h : Inv C W top s) (t : Nat) :
+    Inv C W top (cancelEvents s t) := h.congr rfl rfl rfl rfl rfl rfl rfl rfl rfl
+
+theorem deleteThread_inv_succ {fuel : Nat} (hcw : ICwa (cancelWaitingAll fuel)) (hur : IUr (unregister fuel))
+    (hua : IUa (unregisterAll fuel)) : IDt (deleteThread (fuel + 1)) := by
+  intro C W s t h
+  rw [deleteThread_succ]
+  cases hf : s.th? t with
+  | none =>
+    rw [State.th?_eq] at hf
+    exact Ok.pure (h.dropW (fun th0 h0 => by rw [hf] at h0; cases h0))
+  | some th =>
+    rw [State.th?_eq] at hf
+    have ht : 100 ≤ t := (h.n.range t th hf).1
+    simp only
+    split
+    · rename_i hv
+      have hv' : th.hasVM = false := by simpa using hv
+      refine Ok.pure (h.dropW (fun th0 h0 => ?_))
+      rw [hf] at h0; cases h0
+      rw [(h.th t th hf).f1 hv']; simp
+    · have P := presAll fuel
+      have Qq := qAll fuel
+      -- the state after each step
+      refine (dtStop_inv Qq.cwa hcw h hf).bind ?_ (fun p1 => ?_)
+      · exact ((((((notifyDelete_pres _ _).trans (cancelEvents_pres _ _)).trans (P.ur _ _ _)).trans
+          (P.ur _ _ _)).trans (P.ua _ _)).trans (P.cwa _ _)).trans (finishDelete_pres _ _)
+      obtain ⟨i2, g2⟩ := notifyDelete_inv p1.1 p1.2
+      have i3 := cancelEvents_inv i2 t
+      have g3 : Gone (cancelEvents (notifyDelete (stopStep (cancelWaitingAll fuel)
+          (s.setTh t fun th => { th with hasVM := false }) t th) t) t) t := g2
+      refine (hur C W _ t nameDelete i3 (Or.inr (Or.inr ht))).bind ?_ (fun p4 => ?_)
+      · exact (((P.ur _ _ _).trans (P.ua _ _)).trans (P.cwa _ _)).trans (finishDelete_pres _ _)
+      have g4 := g3.of_q (Qq.ur [] _ t nameDelete i3.n (Or.inr ht))
+      refine (hur C W _ t nameRemove p4.1 (Or.inr (Or.inr ht))).bind ?_ (fun p5 => ?_)
+      · exact ((P.ua _ _).trans (P.cwa _ _)).trans (finishDelete_pres _ _)
+      have g5 := g4.of_q (Qq.ur [] _ t nameRemove p4.1.n (Or.inr ht))
+      refine (hua C W _ t p5.1).bind ?_ (fun p6 => ?_)
+      · exact (P.cwa _ _).trans (finishDelete_pres _ _)
+      have g6 := g5.of_q (Qq.ua [] _ t p5.1.n)
+      refine (hcw C W _ t (p6.1.consC t)).bind (finishDelete_pres _ _) (fun p7 => ?_)
+      have q7 := Qq.cwa [] _ t p6.1.n
+      have g7 := g6.of_q q7
+      have hown : Tbl.hasOwner (cancelWaitingAll fuel (unregisterAll fuel (unregister fuel (unregister fuel
+          (cancelEvents (notifyDelete (stopStep (cancelWaitingAll fuel)
+            (s.setTh t (fun th => { th with hasVM := false })) t th) t) t)
+          t nameDelete) t nameRemove) t) t).notify t = false :=
+        hasOwner_false_of_sub p6.1.n.wfN p7.1.n.wfN q7.subN p6.2
+      exact Ok.pure (finishDelete_inv p7.1 g7 hown p7.2)
+
+theorem stoppedNotify_inv_succ {fuel : Nat} (hdt : IDt (deleteThread fuel)) : ISn (stoppedNotify (fuel + 1)) := by
+  intro C W s l h
+  rw [stoppedNotify_succ]
+  split
+  · split
+    · exact hdt C W s l (h.consW l)
+    · exact Ok.pure h
+  · exact Ok.pure h
+
 end Morfuse.Sched
